@@ -19,7 +19,7 @@ RULE = ('for each base grammar: every dependency-closed way of moving a subset o
         'rule or terminal; template defined in the module and instantiated with a terminal, a rule or a literal) x parser (lalr; '
         'earley with ambiguity=explicit compared as sets) x every input up to the bound: the importing grammar must accept exactly '
         'what the hand-inlined grammar accepts and build the same tree, transitively imported names carrying the documented '
-        'module__name prefix. Non-trivial = accepted non-empty input on a split that moves at least one definition the main '
+        'module__name prefix; plus 5 grammars whose templates carry priorities / modifiers, each compared with the same grammar with the template instances written out as plain rules (6 engine configurations). Non-trivial = accepted non-empty input on a split that moves at least one definition the main '
         'grammar does not import explicitly; distinct by construction')
 ASSUMPTIONS = ['the hand-inlined grammar is produced by our own textual renamer (fresh legal names for module-internal definitions)',
                'aliases inside imported rules may carry the module prefix or not (undocumented; accepted either way, consistently per grammar)',
@@ -288,6 +288,54 @@ def _has_label(t, labels):
     return t[1] in labels or any(_has_label(c, labels) for c in t[2])
 
 
+# --------------------------------------------------------------------------------------------------- templates written out
+
+# (name, grammar with templates, the same grammar with every template instance written out by hand, alphabet, max length).
+# Every template is used with one argument list, so the written-out rule can keep the template's name, modifiers and priority.
+TEMPLATE_PAIRS = [
+    ('prio', 'start: plain | wrapped{WORD}\nwrapped{t}.2: t\nplain.1: WORD\nWORD: /[ab]+/\n',
+             'start: plain | wrapped\nwrapped.2: WORD\nplain.1: WORD\nWORD: /[ab]+/\n', 'ab', 3),
+    ('prio-neg-2params', 'start: pair{A, B} | other\npair{x, y}.-1: x y | x\nother: A B | A\nA: "a"\nB: "b"\n',
+                         'start: pair | other\npair.-1: A B | A\nother: A B | A\nA: "a"\nB: "b"\n', 'ab', 3),
+    ('prio-mods', 'start: w{A}+ k{B}?\n?w{x}.2: x | x "!" -> bang\n!k{x}.1: "(" x ")"\nA: "a"\nB: "b"\n',
+                  'start: w+ k?\n?w.2: A | A "!" -> bang\n!k.1: "(" B ")"\nA: "a"\nB: "b"\n', 'ab!()', 5),
+    ('prio-nested', 'start: a{b{X}} | c\na{t}.1: t\nb{t}.3: t Y?\nc.2: X Y?\nX: "x"\nY: "y"\n',
+                    'start: a | c\na.1: b\nb.3: X Y?\nc.2: X Y?\nX: "x"\nY: "y"\n', 'xy', 3),
+    ('prio-list', 'start: seq{item} | flat\nseq{x}.2: x ("," x)*\nflat.1: item ("," item)*\nitem: A\nA: "a"\n',
+                  'start: seq | flat\nseq.2: item ("," item)*\nflat.1: item ("," item)*\nitem: A\nA: "a"\n', 'a,', 5),
+]
+TEMPLATE_ENGINES = (('earley', {'ambiguity': 'resolve'}), ('earley', {'ambiguity': 'resolve', 'priority': 'invert'}), ('earley', {'ambiguity': 'explicit'}),
+                    ('earley', {'lexer': 'basic'}), ('lalr', {}), ('lalr', {'lexer': 'basic', 'keep_all_tokens': True}))
+
+
+def check_template_pair(idx, res, only=None):
+    name, tg, hg, alpha, L = TEMPLATE_PAIRS[idx]
+    for ei, (parser, opts) in enumerate(TEMPLATE_ENGINES):
+        if only and only['engine'] != ei:
+            continue
+        cfg = {'template_pair': name, 'pair_index': idx, 'engine': ei, 'parser': parser, 'options': opts, 'with_templates': tg, 'written_out': hg}
+        rt = larkio.build(tg, parser=parser, **opts)
+        rh = larkio.build(hg, parser=parser, **opts)
+        res['evals'] += 2
+        if rt[0] != 'ok' or rh[0] != 'ok':
+            if larkio.outcome(rt) != larkio.outcome(rh):
+                res['viol'].append({'kind': 'template-construction-differs', 'cause': 'template:' + name, 'case': cfg,
+                                    'expected': repr(rh[1])[:200], 'observed': repr(rt[1])[:200]})
+            continue
+        for w in util.strings(alpha, L):
+            if only and only.get('input') != w:
+                continue
+            a, b = larkio.parse(rt[1], w), larkio.parse(rh[1], w)
+            res['evals'] += 2
+            oa = ('ok', obs.canon(a[1])) if a[0] == 'ok' else (a[0], type(a[1]).__name__, getattr(a[1], 'pos_in_stream', None))
+            ob = ('ok', obs.canon(b[1])) if b[0] == 'ok' else (b[0], type(b[1]).__name__, getattr(b[1], 'pos_in_stream', None))
+            if b[0] == 'ok':
+                res['nontrivial'] += 1
+            if oa != ob:
+                res['viol'].append({'kind': 'template-differs-from-written-out-rule', 'cause': 'template:' + name, 'case': dict(cfg, input=w),
+                                    'expected': ob, 'observed': oa})
+
+
 FORMS = ('single', 'group', 'rename', 'nested', 'relative')
 VARIANTS = ('plain', 'local-clash', 'override', 'extend', 'keep-all')       # keep-all: plain split built with keep_all_tokens=True
 
@@ -302,17 +350,23 @@ def plan(tier, seed):
                         continue
                     items.append((base, sorted(S), form, variant))
     # group into work items
-    return [tuple(items[i:i + 12]) for i in range(0, len(items), 12)]
+    return [tuple(items[i:i + 12]) for i in range(0, len(items), 12)] + [('template-pair', i) for i in range(len(TEMPLATE_PAIRS))]
 
 
 def bounds(tier, seed):
     return {'bases': {b: {'definitions': [h for h, _ in v[0]], 'splits': sum(1 for _ in splits(v[0])), 'input_alphabet': v[1], 'max_input_len': v[2]} for b, v in BASES.items()},
+            'template_pairs': [t[0] for t in TEMPLATE_PAIRS], 'template_engines': [list(e) for e in TEMPLATE_ENGINES],
             'import_forms': FORMS, 'variants': VARIANTS, 'parsers': ['lalr', 'earley (ambiguity=explicit, sets)'],
             'quick_thinning': 'nested/relative forms only with the plain variant' if tier == 'quick' else None}
 
 
 def work(item):
     res = new_res()
+    if item[0] == 'template-pair':
+        check_template_pair(item[1], res)
+        res['counters']['template grammars compared with their written-out form'] += 1
+        res['counters'] = dict(res['counters'])
+        return res
     for base, S, form, variant in item:
         res['counters']['(split, form, variant) cases'] += 1
         check_case(base, S, form, variant, res)
@@ -322,5 +376,8 @@ def work(item):
 
 def replay(case):
     res = new_res()
+    if 'template_pair' in case:
+        check_template_pair(case['pair_index'], res, only=case)
+        return res['viol']
     check_case(case['base'], case['moved'], case['form'], case['variant'], res, only=case)
     return res['viol']
